@@ -8,6 +8,7 @@ import (
 	"go/types"
 	"sort"
 	"strings"
+	"sync/atomic"
 	"time"
 
 	"golang.org/x/tools/go/ssa"
@@ -56,6 +57,10 @@ type Config struct {
 	RootFree  []*Term
 	MaxDepth  int
 	MaxStates int
+	// SharedStates, when set, is a counter shared by explorations that run side by side (the
+	// cells of a case split); SharedMax bounds their total (memory safety valve).
+	SharedStates *int64
+	SharedMax    int64
 	// MaxSeconds bounds the wall-clock time of one exploration (safety valve; exceeding it is reported as a problem).
 	MaxSeconds int
 	// Classify may override the default disposition of a call.
@@ -70,6 +75,8 @@ type Config struct {
 	ParamInit map[int]*Term
 	// InitFacts may preload facts (assumptions about ParamInit terms).
 	InitFacts func(e *Engine, f *Facts)
+	// MemInit preloads memory (address term -> content), e.g. the cells a root closure captured.
+	MemInit map[*Term]*Term
 	// DropReturnStates: do not retain the final state of every return (the monitors saw it); saves memory on big explorations.
 	DropReturnStates bool
 	// KeepFacts disables the pruning of facts about dead values (needed when
@@ -100,21 +107,22 @@ type Problem struct {
 
 // Engine explores one root function.
 type Engine struct {
-	Cfg      Config
-	finfo    map[*ssa.Function]*FuncInfo
-	visited  map[[20]byte]bool
-	deadline time.Time
-	work     []*State
-	States   int
-	Forks    int
-	Events   int
-	Returns  []ReturnRec
-	Problems []Problem
-	volatile map[*ssa.Alloc]bool
-	allocOf  map[string]*ssa.Alloc
-	siteType map[string]types.Type
-	Inlined  map[*ssa.Function]bool
-	Trans    int
+	Cfg        Config
+	finfo      map[*ssa.Function]*FuncInfo
+	visited    map[[20]byte]bool
+	sharedSeen int
+	deadline   time.Time
+	work       []*State
+	States     int
+	Forks      int
+	Events     int
+	Returns    []ReturnRec
+	Problems   []Problem
+	volatile   map[*ssa.Alloc]bool
+	allocOf    map[string]*ssa.Alloc
+	siteType   map[string]types.Type
+	Inlined    map[*ssa.Function]bool
+	Trans      int
 	// SiteClass records the class of the event created at each site.
 	SiteClass map[string]string
 	// IVStep records the constant step of each induction-variable symbol (0 = inconsistent).
@@ -176,6 +184,53 @@ func (e *Engine) computeVolatile() {
 			}
 		}
 	}
+	// mayWrite[f][i]: f may store through its i-th parameter (receiver first), directly or
+	// by handing it (or the address of one of its fields) to an in-package function that does
+	mayWrite := map[*ssa.Function]map[int]bool{}
+	paramIdx := func(f *ssa.Function, v ssa.Value) int {
+		if p, ok := rootValue(v).(*ssa.Parameter); ok {
+			for i, q := range f.Params {
+				if q == p {
+					return i
+				}
+			}
+		}
+		return -1
+	}
+	for changed := true; changed; {
+		changed = false
+		for _, f := range fns {
+			mark := func(i int) {
+				if i < 0 {
+					return
+				}
+				if mayWrite[f] == nil {
+					mayWrite[f] = map[int]bool{}
+				}
+				if !mayWrite[f][i] {
+					mayWrite[f][i] = true
+					changed = true
+				}
+			}
+			for _, b := range f.Blocks {
+				for _, ins := range b.Instrs {
+					switch x := ins.(type) {
+					case *ssa.Store:
+						mark(paramIdx(f, x.Addr))
+					case ssa.CallInstruction:
+						cc := x.Common()
+						if g := cc.StaticCallee(); g != nil && !cc.IsInvoke() {
+							for ai, a := range cc.Args {
+								if mayWrite[g][ai] {
+									mark(paramIdx(f, a))
+								}
+							}
+						}
+					}
+				}
+			}
+		}
+	}
 	writtenFree := map[*ssa.Function]map[int]bool{}
 	for _, f := range fns {
 		if len(f.FreeVars) == 0 {
@@ -191,6 +246,16 @@ func (e *Engine) computeVolatile() {
 				if st, ok := ins.(*ssa.Store); ok {
 					if fv, ok := rootValue(st.Addr).(*ssa.FreeVar); ok {
 						w[idx[fv]] = true
+					}
+				}
+				if ci, ok := ins.(ssa.CallInstruction); ok {
+					cc := ci.Common()
+					if g := cc.StaticCallee(); g != nil && !cc.IsInvoke() {
+						for ai, a := range cc.Args {
+							if fv, ok := rootValue(a).(*ssa.FreeVar); ok && mayWrite[g][ai] {
+								w[idx[fv]] = true
+							}
+						}
 					}
 				}
 			}
@@ -280,6 +345,9 @@ func (e *Engine) Run() {
 	if e.Cfg.InitFacts != nil {
 		e.Cfg.InitFacts(e, st.facts)
 	}
+	for a, v := range e.Cfg.MemInit {
+		st.mem[a] = v
+	}
 	if len(root.FreeVars) > 0 {
 		if e.Cfg.RootFree != nil {
 			fr.free = e.Cfg.RootFree
@@ -307,6 +375,14 @@ func (e *Engine) Run() {
 		if e.States > e.Cfg.MaxStates {
 			e.problem("budget", fmt.Sprintf("state budget %d exceeded", e.Cfg.MaxStates), token.Position{})
 			return
+		}
+		if e.Cfg.SharedStates != nil && e.States-e.sharedSeen >= 256 {
+			tot := atomic.AddInt64(e.Cfg.SharedStates, int64(e.States-e.sharedSeen))
+			e.sharedSeen = e.States
+			if tot > e.Cfg.SharedMax {
+				e.problem("budget", fmt.Sprintf("shared state budget %d of the case split exceeded", e.Cfg.SharedMax), token.Position{})
+				return
+			}
 		}
 	}
 }
